@@ -27,6 +27,17 @@ func main() {
 		}
 		b, _ := json.Marshal(out)
 		fmt.Println(string(b))
+	case "observe":
+		fs := flag.NewFlagSet("observe", flag.ExitOnError)
+		plug := fs.String("plugin", "", "path of the plugin binary")
+		out := fs.String("out", "", "scratch directory")
+		fs.Parse(os.Args[2:])
+		var all []*Observation
+		for _, u := range unsupported_() {
+			all = append(all, observe(u, *plug, *out)...)
+		}
+		b, _ := json.Marshal(all)
+		fmt.Println(string(b))
 	case "variants":
 		fs := flag.NewFlagSet("variants", flag.ExitOnError)
 		tier := fs.String("tier", "quick", "quick | thorough")
